@@ -650,3 +650,15 @@ def loop_accumulator_updates(chk, p, pid="C07", rule="R07.7"):
                 chk.ob(rule, "%s loop path [%s]: inline formula is the group-law sum of the accumulator and the table entry (%s)" % (fname, cond[:80], kind_), okv, loc=loc, key=key,
                        detail="%s updates its accumulator with a formula written out in the loop which, on the path [%s] (%s), %s" % (fname, cond, kind_, why))
     chk.floor(rule, "multiplication loops", nloops, 3)
+
+
+def deferred(chk, fn, *args):
+    """run a formula rule; an AnalysisError is deferred until the other rules of the check have
+    run (sa/main.py re-raises it), so that it never hides their findings"""
+    try:
+        return fn(chk, *args)
+    except AnalysisError as e:
+        if not hasattr(chk, "deferred"):
+            chk.deferred = []
+        chk.deferred.append("%s: %s" % (fn.__name__, e))
+        return None
